@@ -402,7 +402,15 @@ func CreateTemp(dir, pattern string) (*os.File, error) {
 		dir = TempDir()
 	}
 	tempCounter++
-	name := dir + "/" + pattern + "tmp" + string(rune('0'+tempCounter%10)) + string(rune('0'+(tempCounter/10)%10))
+	// as os.CreateTemp: the random part replaces the last "*" of the pattern, or is appended
+	prefix, suffix := pattern, ""
+	for i := len(pattern) - 1; i >= 0; i-- {
+		if pattern[i] == '*' {
+			prefix, suffix = pattern[:i], pattern[i+1:]
+			break
+		}
+	}
+	name := dir + "/" + prefix + "9" + string(rune('0'+tempCounter%10)) + string(rune('0'+(tempCounter/10)%10)) + "7" + suffix
 	return OpenFile(name, os.O_RDWR|os.O_CREATE|os.O_EXCL, 0600)
 }
 
@@ -477,3 +485,34 @@ func RemoveAll(path string) error {
 }
 
 func Mkdir(path string, perm os.FileMode) error { return nil }
+
+func FileReadAt(osf *os.File, b []byte, off int64) (int, error) {
+	h := fsHandles[osf]
+	if h == nil || h.closed {
+		return 0, fs.ErrClosed
+	}
+	if off < 0 {
+		return 0, pathErr("readat", h.f.path, errors.New("negative offset"))
+	}
+	if int(off) >= len(h.f.data) {
+		return 0, io.EOF
+	}
+	n := copy(b, h.f.data[off:])
+	if n < len(b) {
+		return n, io.EOF
+	}
+	return n, nil
+}
+
+func FileReaddirnames(osf *os.File, n int) ([]string, error) {
+	h := fsHandles[osf]
+	if h == nil || h.closed {
+		return nil, fs.ErrClosed
+	}
+	infos, _ := ReadDir(h.f.path)
+	var out []string
+	for _, i := range infos {
+		out = append(out, i.Name())
+	}
+	return out, nil
+}
